@@ -44,9 +44,9 @@ Proof. intros G x st W Hx. destruct (apply_rule_ok _ x st G W Hx) as (st' & E & 
 Theorem const_slot_row_lemma vs c env fuel L : (exists v, In v vs /\ In (slot_sv c) (subterms v)) ->
   exists st', infer_all default_rule_set (snd (assign_vars vs)) = Ok st' /\
     (forall vals, (forall x, In x (values st') -> In x vals) ->
-       build_layout abi_nested_add env fuel vals [] = Ok L -> exists off ty, In (c, off, ty) L).
+       build_layout abi_nested_add abi_nested_fit env fuel vals [] = Ok L -> exists off ty, In (c, off, ty) L).
 Proof.
   intros H. destruct (rule_keeps_slot_lemma vs c H) as (st' & E & x & Hx & _ & Kx). exists st'. split; [exact E|].
-  intros vals Hv B. destruct (layout_row_per_const_slot_gen abi_nested_add env fuel vals [] L B) as (_ & Rows).
+  intros vals Hv B. destruct (layout_row_per_const_slot_gen abi_nested_add abi_nested_fit env fuel vals [] L B) as (_ & Rows).
   exact (Rows x c (Hv x Hx) Kx).
 Qed.
